@@ -650,6 +650,10 @@ func (ex *Explorer) searchDPOR(f int) bool {
 			ex.st.Capped = "deadline"
 			return false
 		}
+		if ex.st.Executions&4095 == 4095 && heapTooLarge() {
+			ex.st.Capped = "deadline (memory limit of the worker reached first)"
+			return false
+		}
 		if ex.sc.MaxExec > 0 && ex.st.Executions >= ex.sc.MaxExec {
 			ex.st.Capped = "max_exec"
 			return false
